@@ -1,7 +1,9 @@
 import TcVerif.Driver.Util
-import TcVerif.Proofs.CloudCheck
+import TcVerif.Driver.CloudConc
+import TcVerif.Proofs.CleanupCheck
 /-!
-# Driver, family `cloudconc`: the object-store server's request trace against the proven machine
+# Driver, family `cloudconc --cleanup`: the same trace check against the machine with snapshots
+and cleanup (`Cl`, `Proofs/Cleanup*.lean`) — generated from `CloudConc.lean` and extended
 
 Every store request the real `CloudServer` made (as logged by the in-memory object store, in
 execution order, under the harness's schedule) is turned into an event of `Tc.Cloud.check`; the
@@ -11,43 +13,30 @@ contents the machine predicts equal the real ones, and every value returned to a
 the machine's ghost state justifies.
 -/
 namespace Tc.Driver
-open Tc.Cloud
+open Cl
 
-def cSym (t : String) : Option Nat :=
-  if t == "nil" then some 0
-  else if t == "none" then none
-  else if t.startsWith "n" then (t.drop 1).toString.toNat?
-  else if t.startsWith "x" then ((t.drop 1).toString.toNat?).map (· + 1000000)
-  else none
-
-def cFmt (n : Nat) : String := if n == 0 then "nil" else if n ≥ 1000000 then s!"x{n - 1000000}" else s!"n{n}"
-
-/-- `v-P-N` → (P, N) -/
-def vName (t : String) : Option (Nat × Nat) :=
-  match t.splitOn "-" with
-  | ["v", p, n] => match cSym p, cSym n with | some p, some n => some (p, n) | _, _ => none
-  | _ => none
-
-inductive CCall where
+inductive KCall where
   | idle
   | av (P d : Nat) (stage : Nat) (N : Nat)
   | gc (P : Nat) (stage : Nat)
+  | snap (v : Nat)
+  | clean (stage : Nat)
   | other
 deriving Repr, BEq
 
-structure CCState where
+structure KState where
   n : Nat := 0
-  sys : Sys := Cloud.init
-  calls : List CCall := []
+  sys : Sys := Cl.init
+  calls : List KCall := []
   bad : Option String := none
   submitted : List (Nat × Nat × Nat) := []     -- judge: (parent, id, data) of every put
   ackedL : List (Nat × Nat) := []              -- judge: (parent, id) of every `ret ok`
   servedL : List (Nat × Nat × Nat) := []       -- judge: every `ret ver`
 
-def CCState.call (s : CCState) (i : Nat) : CCall := s.calls.getD i .idle
-def CCState.setCall (s : CCState) (i : Nat) (c : CCall) : CCState := { s with calls := s.calls.set i c }
+def KState.call (s : KState) (i : Nat) : KCall := s.calls.getD i .idle
+def KState.setCall (s : KState) (i : Nat) (c : KCall) : KState := { s with calls := s.calls.set i c }
 
-def CCState.fire (s : CCState) (ev : Ev) (why : String) : CCState :=
+def KState.fire (s : KState) (ev : Ev) (why : String) : KState :=
   match s.bad with
   | some _ => s
   | none =>
@@ -55,19 +44,11 @@ def CCState.fire (s : CCState) (ev : Ev) (why : String) : CCState :=
     | some S' => { s with sys := S' }
     | none => { s with bad := some s!"not-a-step-of-the-machine {why}" }
 
-def CCState.flag (s : CCState) (why : String) : CCState :=
+def KState.flag (s : KState) (why : String) : KState :=
   match s.bad with | some _ => s | none => { s with bad := some why }
 
-def optEq (a : Option Nat) (b : Option Nat) : Bool := a == b
-
-def reportedOf (toks : List String) : List Nat :=
-  match toks.findSome? fun t => afterPrefix t "reported=" with
-  | some "-" => []
-  | some l => (l.splitOn ",").filterMap fun nm => (vName nm).map (·.2)
-  | none => []
-
 /-- one logged request of client i -/
-def ccEvent (s : CCState) (i : Nat) (toks : List String) : CCState :=
+def kEvent (s : KState) (i : Nat) (toks : List String) : KState :=
   let call := s.call i
   match toks with
   | ["get", "latest", "->", x] =>
@@ -78,6 +59,7 @@ def ccEvent (s : CCState) (i : Nat) (toks : List String) : CCState :=
       if obs == none || obs == some P then (s.fire (.avRead i P d) s!"avRead c{i}").setCall i (.av P d 1 0)
       else s.setCall i (.av P d 9 0)
     | .av _ _ 5 _ => s
+    | .clean 0 => (s.fire (.clRead i) s!"clRead c{i}").setCall i (.clean 1)
     | .gc P 1 =>
       let s := s.fire (.gcLatest i) s!"gcLatest c{i}"
       match s.sys.pcs i with
@@ -86,7 +68,11 @@ def ccEvent (s : CCState) (i : Nat) (toks : List String) : CCState :=
     | .other => s
     | _ => s.flag s!"unexpected get-latest c{i}"
   | ["put", name, "->", "ok"] =>
-    if name.startsWith "s-" then s else
+    if name.startsWith "s-" then
+      match call, cSym (name.drop 2).toString with
+      | .snap v, some x => if v == x then s.fire (.addSnap i v) s!"addSnap c{i} {name}" else s.flag s!"stores-snapshot-under-other-version c{i} {name}"
+      | _, _ => s.flag s!"unexpected put c{i} {name}"
+    else
     match vName name, call with
     | some (p, n), .av P d 1 _ =>
       if p != P then s.flag s!"put-under-wrong-parent c{i}"
@@ -103,14 +89,50 @@ def ccEvent (s : CCState) (i : Nat) (toks : List String) : CCState :=
       s.setCall i (.av P d (if ok == "true" then 3 else 4) N)
     | _ => s.flag s!"unexpected cas c{i}"
   | ["del", name, "->", "ok"] =>
-    if name.startsWith "s-" then s else
+    if name.startsWith "s-" then
+      match call, cSym (name.drop 2).toString with
+      | .clean 4, some x => s.fire (.clDelSnap i x) s!"clDelSnap c{i} {name}"
+      | _, _ => s.flag s!"unexpected del c{i} {name}"
+    else
     match vName name, call with
+    | some (p, c), .clean 2 => s.fire (.clDelVer i p c) s!"cleanup-deletes-a-version-that-is-not-a-loser c{i} {name}"
+    | some (p, c), .clean 4 =>
+      ((s.fire (.clSnapsDone i) "clSnapsDone").fire (.clDelVer i p c) s!"cleanup-retires-a-version-not-covered-by-the-retained-snapshot c{i} {name}").setCall i (.clean 5)
+    | some (p, c), .clean 5 => s.fire (.clDelVer i p c) s!"cleanup-retires-a-version-not-covered-by-the-retained-snapshot c{i} {name}"
     | some (_, n), .av P d 4 N =>
       if n != N then s.flag s!"deletes-other-version c{i} {name}"
       else (s.fire (.avDel i) s!"avDel c{i}").setCall i (.av P d 5 N)
     | _, _ => s.flag s!"unexpected del c{i} {name}"
   | "list" :: pfx :: "start" :: rest =>
-    if pfx.startsWith "s-" then s else
+    if pfx.startsWith "s-" then
+      match call with
+      | .clean 2 =>
+        -- the snapshot it retains: the first version on its walk (newest first) with a listed snapshot
+        let listed : List Nat := match rest.findSome? fun t => afterPrefix t "reported=" with
+          | some "-" => []
+          | some l => (l.splitOn ",").filterMap fun nm => cSym (nm.drop 2).toString
+          | none => []
+        match s.sys.pcs i with
+        | .c2 l0 seen =>
+          match (revOf seen l0).find? (fun q => listed.contains q.1) with
+          | some q => (s.fire (.clPick i q.1) s!"clPick c{i} s-{cFmt q.1}").setCall i (.clean 4)
+          | none => s.setCall i (.clean 9)
+        | _ => s.flag s!"unexpected snapshot listing c{i}"
+      | _ => s
+    else if pfx == "v-" then
+      match call with
+      | .clean 1 =>
+        let names : List (Nat × Nat) := match rest.findSome? fun t => afterPrefix t "reported=" with
+          | some "-" => []
+          | some l => (l.splitOn ",").filterMap vName
+          | none => []
+        let seen : List VObj := names.filterMap fun (p, c) =>
+          (s.sys.sub.find? fun x => x.1 == p && x.2.1 == c).map fun x => ⟨p, c, x.2.2⟩
+        let s := if seen.length == names.length then s else s.flag s!"listing-reports-an-object-never-put c{i}"
+        (s.fire (.clList i seen) s!"clList c{i}").setCall i (.clean 2)
+      | .other => s
+      | _ => s.flag s!"unexpected full listing c{i}"
+    else
     match (pfx.splitOn "-"), call with
     | ["v", q, ""], .gc P 0 =>
       if cSym q != some P then s.flag s!"lists-other-parent c{i}" else
@@ -121,7 +143,6 @@ def ccEvent (s : CCState) (i : Nat) (toks : List String) : CCState :=
       match cSym q with
       | some q => s.fire (.gcProbe i q (!(reportedOf rest).isEmpty)) s!"gcProbe c{i} {pfx}"
       | none => s.flag "parse"
-    | _, .other => s
     | _, _ => s.flag s!"unexpected list c{i} {pfx}"
   | "list" :: _ => s          -- pages and the end of a listing
   | "get" :: name :: "->" :: r :: _ =>
@@ -137,7 +158,7 @@ def ccEvent (s : CCState) (i : Nat) (toks : List String) : CCState :=
     | _, _ => s.flag s!"unexpected get c{i} {name}"
   | _ => s          -- snapshot objects and anything else: no effect on the chain
 
-def ccRet (s : CCState) (i : Nat) (toks : List String) : CCState :=
+def kRet (s : KState) (i : Nat) (toks : List String) : KState :=
   let call := s.call i
   let s := match toks, call with
     | ["ok", v], .av P _ 3 N =>
@@ -152,25 +173,25 @@ def ccRet (s : CCState) (i : Nat) (toks : List String) : CCState :=
       { s with servedL := s.servedL ++ [want] }
     | ["ver", v, _, _], _ => s.flag s!"returned-version-not-served-by-machine c{i} {v}"
     | ["none"], .gc _ _ => s
+    | ["done"], .clean _ => s
+    | ["done"], .snap _ => s
     | _, .other => s
     | [r], _ => if r == "fault" || r.startsWith "err" then s else s.flag s!"unexpected-return c{i} {r}"
     | _, _ => s.flag s!"unexpected-return c{i}"
   ((s.fire (.stop i) "stop").setCall i .idle)
 
-def insertSortedStr (x : String) (l : List String) : List String := insertSorted x l
-
-def ccLine (s : CCState) (line : String) : CCState × List String :=
+def kLine (s : KState) (line : String) : KState × List String :=
   let parts := (line.trimAscii.toString.splitOn " :: ")
   let head := (parts.headD "").splitOn " "
   let evs := parts.drop 1
-  let runEvs (s : CCState) : CCState := evs.foldl (fun s e =>
+  let runEvs (s : KState) : KState := evs.foldl (fun s e =>
     match e.splitOn " " with
-    | "ret" :: c :: rest => match c.toNat? with | some c => ccRet s c rest | none => s
+    | "ret" :: c :: rest => match c.toNat? with | some c => kRet s c rest | none => s
     | c :: rest =>
-      if c.startsWith "c" then match (c.drop 1).toString.toNat? with | some c => ccEvent s c rest | none => s
+      if c.startsWith "c" then match (c.drop 1).toString.toNat? with | some c => kEvent s c rest | none => s
       else s
     | _ => s) s
-  let verdict (s0 s1 : CCState) : List String :=
+  let verdict (s0 s1 : KState) : List String :=
     match s0.bad, s1.bad with
     | none, some w => [s!"ILLEGAL {w}"]
     | _, _ => ["ok"]
@@ -186,6 +207,8 @@ def ccLine (s : CCState) (line : String) : CCState × List String :=
           | some p, some d => s.setCall c (.av p d 0 0)
           | _, _ => s.flag "parse"
         | ["GC", p] => match cSym p with | some p => s.setCall c (.gc p 0) | none => s.flag "parse"
+        | ["AS", v, _] => match cSym v with | some v => s.setCall c (.snap v) | none => s.flag "parse"
+        | ["CLEAN"] => s.setCall c (.clean 0)
         | _ => s.setCall c .other
       let s2 := runEvs s1
       (s2, verdict s s2)
@@ -204,30 +227,28 @@ def ccLine (s : CCState) (line : String) : CCState × List String :=
     let mine := sortDedup (s.sys.vers.map fun o => s!"v-{cFmt o.parent}-{cFmt o.child}")
     let s2 := if lat == some ((s.sys.latest.map cFmt).getD "none") then s else s.flag s!"final latest differs machine={(s.sys.latest.map cFmt).getD "none"}"
     let s2 := if sortDedup objs == mine then s2 else s2.flag s!"final objects differ machine={mine}"
+    let sn := ((evs.findSome? fun e => afterPrefix e "objects ").getD "").splitOn " " |>.filter (·.startsWith "s-")
+    let mineS := sortDedup (s.sys.snaps.map fun v => s!"s-{cFmt v}")
+    let s2 := if sortDedup sn == mineS then s2 else s2.flag s!"final snapshots differ machine={mineS}"
     (s2, verdict s s2)
   | [""] => (s, [])
   | _ => (s, ["bad-op"])
 
 /-! ## Judge: the outcome predicates of C09 on what the implementation returned and left behind -/
 
-def chainFrom (objs : List (Nat × Nat)) : Nat → Nat → List Nat
-  | 0, _ => []
-  | fuel + 1, c =>
-    match objs.find? (·.2 == c) with
-    | some (p, _) => chainFrom objs fuel p ++ [c]
-    | none => []
-
-structure CJ where
+structure KJ where
   hdr : String := ""
-  st : CCState := {}
+  st : KState := {}
   fails : List String := []
 
-def cjFinal (st : CCState) (evs : List String) : List String :=
+def kjFinal (st : KState) (evs : List String) : List String :=
   let lat := ((evs.findSome? fun e => afterPrefix e "latest ").bind cSym)
   let objs := (((evs.findSome? fun e => afterPrefix e "objects ").getD "").splitOn " ").filterMap vName
-  let chain := match lat with | some l => chainFrom objs (objs.length + 1) l | none => []
+  -- (retention removes old chain objects, so here the chain is the sequence of successful swaps)
+  let _ := lat
+  let chain := st.sys.chain
   let pairs := (chain.zip (chain.drop 1))     -- consecutive (parent, child)
-  let firstOk (p c : Nat) : Bool := chain.head? == some c && objs.contains (p, c)
+  let firstOk (p c : Nat) : Bool := chain.head? == some c && st.submitted.any (fun x => x.1 == p && x.2.1 == c)
   let onChain (p c : Nat) : Bool := pairs.contains (p, c) || firstOk p c
   let f1 := st.ackedL.filterMap fun (p, n) =>
     if onChain p n then none else some s!"acked version-{cFmt n}-acknowledged-but-not-on-the-final-chain"
@@ -237,10 +258,25 @@ def cjFinal (st : CCState) (evs : List String) : List String :=
     if !onChain p n then some s!"served version-{cFmt n}-served-but-not-on-the-final-chain"
     else if !st.submitted.contains (p, n, d) then some s!"served version-{cFmt n}-served-with-other-bytes"
     else none
-  f1 ++ f2 ++ f3
+  -- C10: what must still be there — with the chain taken from the successful swaps (ghost), not from the store
+  let gchain := st.sys.chain
+  let snapObjs := (((evs.findSome? fun e => afterPrefix e "objects ").getD "").splitOn " ").filterMap fun nm =>
+    if nm.startsWith "s-" then cSym (nm.drop 2).toString else none
+  let hasObj (c : Nat) : Bool := objs.any (·.2 == c)
+  let f4 :=
+    if st.sys.snapsEver.isEmpty then
+      (gchain.filter fun c => !hasObj c).map fun c => s!"retained version-{cFmt c}-deleted-although-no-snapshot-was-ever-stored"
+    else
+      -- some stored snapshot of a chain version such that every later version is still there
+      let ok := snapObjs.any fun m => gchain.contains m && ((gchain.dropWhile (· != m)).drop 1).all hasObj
+      if ok then [] else [s!"retained no-stored-snapshot-with-all-later-versions snapshots={snapObjs.map cFmt} chain={gchain.map cFmt}"]
+  let f5 := match evs.findSome? fun e => afterPrefix e "walk " with
+    | some w => if w.startsWith "reaches-latest" then [] else [s!"walk fresh-replica-cannot-reach-latest {w.take 80}"]
+    | none => []
+  f1 ++ f2 ++ f3 ++ f4 ++ f5
 
-def cjLine (j : CJ) (l : String) : CJ × List String :=
-  let flush (j : CJ) : List String :=
+def kjLine (j : KJ) (l : String) : KJ × List String :=
+  let flush (j : KJ) : List String :=
     if j.hdr.isEmpty then [] else
     match j.fails.eraseDups with
     | [] => [s!"judge {j.hdr} :: ok"]
@@ -248,15 +284,15 @@ def cjLine (j : CJ) (l : String) : CJ × List String :=
   if l.startsWith "# case" then ({ hdr := l }, flush j)
   else if l.startsWith "> " then
     let line := (l.drop 2).toString
-    let (st, _) := ccLine j.st line
+    let (st, _) := kLine j.st line
     let j := { j with st := st }
     if line.startsWith "END" then
-      ({ j with fails := j.fails ++ cjFinal st ((line.splitOn " :: ").drop 1) }, [])
+      ({ j with fails := j.fails ++ kjFinal st ((line.splitOn " :: ").drop 1) }, [])
     else (j, [])
   else if l == "panic" then ({ j with fails := j.fails ++ ["noerr panic"] }, [])
   else (j, [])
 
-def cjFlush (j : CJ) : List String :=
+def kjFlush (j : KJ) : List String :=
   if j.hdr.isEmpty then [] else
   match j.fails.eraseDups with
   | [] => [s!"judge {j.hdr} :: ok"]
